@@ -416,6 +416,18 @@ def u_c10d():
     return u.finish()
 
 
+def u_c14b():
+    """A deletion request with many targets (first and last one the requester's own stored events, absent ids in between):
+    one store call with a long run of index updates inside one transaction (used by the concurrency check)."""
+    u = Universe("c14b", nauthors=2, nabsent=1)
+    A, B = 1, 2
+    u.add(B, 1, 10, [], clen=5)                                                                  # 1 first target
+    u.add(B, 1, 11, [], clen=6)                                                                  # 2 last target
+    u.add(B, 5, 30, [["e", ("ev", 1)]] + [["e", ("ev", "absent")]] * 130 + [["e", ("ev", 2)]], clen=0)   # 3 the request (132 tags)
+    u.add(A, 1, 12, [], clen=7)                                                                  # 4 bystander
+    return u.finish()
+
+
 def u_c11b():
     """Deletion requests with several targets where an earlier-listed address is already covered, and addresses
     whose d value contains the ':' separator."""
@@ -525,7 +537,7 @@ def u_exp(now):
     return u.finish()
 
 
-CURATED = dict(c10d=u_c10d, qv=u_qv, c09c=u_c09c, c10c=u_c10c, c16=u_c16, c11b=u_c11b, c12x=u_c12x, c09b=u_c09b, c10b=u_c10b, sz=u_sz, core=u_core, c09=u_c09, c10=u_c10, c11=u_c11, c18=u_c18, q=u_q)
+CURATED = dict(c14b=u_c14b, c10d=u_c10d, qv=u_qv, c09c=u_c09c, c10c=u_c10c, c16=u_c16, c11b=u_c11b, c12x=u_c12x, c09b=u_c09b, c10b=u_c10b, sz=u_sz, core=u_core, c09=u_c09, c10=u_c10, c11=u_c11, c18=u_c18, q=u_q)
 
 
 # ------------------------------------------------------------------------------------------------
